@@ -68,7 +68,10 @@ def run(ctx):
             F = ctx.facts(b)
             for l, ed in F.literals_at(e.bb):
                 txt = fmt_lit(b, l)
-                if l[0] == 'cmp' and l[1] in ('ne', 'gt') and re.search(r'secure_channel_id|token_id', txt) and txt.rstrip().endswith(' 0'):
+                # the id tested must be the SERVER's record (SecureChannel::secure_channel_id() / token_id() of the channel object),
+                # not a field of the chunk the peer sent
+                if l[0] == 'cmp' and l[1] in ('ne', 'gt') and re.search(r'SecureChannel::(secure_channel_id|token_id)\(', txt) and txt.rstrip().endswith(' 0') \
+                        and not re.search(r'message_header|chunk_info|security_header', txt):
                     return True
                 if l[0] == 'truth' and l[2] is True and re.search(r'issued|channel_open|is_open', txt):
                     return True
